@@ -45,8 +45,11 @@ V(ok, why) == IF ok THEN {} ELSE {why}
    T, L_n, ..., L_1, handler. *)
 ServerLayers == {<<>>} \cup {<<a>> : a \in Beh} \cup {<<a, b>> : a \in Beh, b \in Beh}
 
+\* the service has three unary methods and three streaming methods with
+\* different streaming flags (client-, server-, bidi-streaming); target is the
+\* index of the method that is called
 ServerCases ==
-  [fam : {"server"}, carrier : {"registry", "inproc", "http"}, kind : {"unary", "stream"},
+  [fam : {"server"}, carrier : {"registry", "inproc", "http"}, kind : {"unary", "stream"}, target : 1..3,
    t : Beh, layers : ServerLayers, other : BOOLEAN, via : {"InterceptServer", "WithInterceptor"}]
 
 LayerName(i) == IF i = 1 THEN "L1" ELSE IF i = 2 THEN "L2" ELSE "L3"
